@@ -4,7 +4,7 @@ CONSTANTS
   ConvDstP = {"", "Y", "Z", "E", "P", "T", "G", "M", "k", "h", "da", "d", "c", "m", "u", "n", "p", "f", "a", "z", "y"}
   ReadSets = {1, 2}
   Shapes = {"arr", "sc"}
-  BinForms = {"operator", "ufunc", "inplace", "out"}
+  BinForms = {"operator", "ufunc", "inplace", "out", "out0", "out1", "outv0", "outv1"}
   BinOpSet = {"add", "subtract", "maximum", "minimum", "less", "greater", "less_equal", "greater_equal", "equal", "not_equal"}
   ConvVias = {"in_units", "to", "convert_to_units", "to_value", "in_base", "convert_to_base"}
   ChainP = {"", "m", "k"}
